@@ -58,7 +58,17 @@ pub fn variant(base: &str, ops: &[(u8, u32)]) -> String {
     for (kind, r) in ops {
         let n = cs.len();
         let at = if n == 0 { 0 } else { ((*r as u64 * n as u64) >> 32) as usize };
-        match kind % 9 {
+        match kind % 12 {
+            9 if n > 0 => {
+                // flip bit 5 of an ASCII character ('[' <-> '{', '@' <-> '`', letters change case)
+                if cs[at].is_ascii() {
+                    cs[at] = ((cs[at] as u8) ^ 0x20) as char;
+                }
+            }
+            10 => cs.push('!'),
+            11 => {
+                cs.pop();
+            }
             0 if n > 0 => {
                 // flip the case of every character / of one character
                 let c = cs[at];
@@ -258,7 +268,7 @@ pub fn check_laws(run: &Run, p: Prof, a: &str, b: &str, c: &str, l: &mut Local) 
 }
 
 fn ops() -> BoxedStrategy<Vec<(u8, u32)>> {
-    vec((0u8..9, any::<u32>()), 0..=3).boxed()
+    vec((0u8..12, any::<u32>()), 0..=3).boxed()
 }
 
 pub fn run(run: &Run) {
@@ -288,6 +298,52 @@ pub fn run(run: &Run) {
             _ => (a.clone(), b2.clone()),
         };
         check_pair(run, p, &x, &y, l)
+    });
+    // every ASCII character against the character that differs in bit 5 only, at every alignment 0..=24 (packed case folding)
+    run.par("ascii_bit5_pairs", true, |tid, n, l| {
+        for c in 0x20u8..0x7f {
+            if c as usize % n != tid {
+                continue;
+            }
+            let d = c ^ 0x20;
+            if !(0x20..0x7f).contains(&d) {
+                continue;
+            }
+            for k in 0..=24usize {
+                for tail in ["", "bcdefgh", "bcdefghijklmnopqrstuvw"] {
+                    let a = format!("{}{}{tail}", "a".repeat(k), c as char);
+                    let b = format!("{}{}{tail}", "a".repeat(k), d as char);
+                    for p in PROFS {
+                        l.cases += 1;
+                        if let Err(v) = check_pair(run, p, &a, &b, l) {
+                            run.violate(v);
+                            return;
+                        }
+                    }
+                }
+            }
+        }
+    });
+    // a string against itself plus / minus one trailing character, in both orders, up to 1 MiB+
+    run.par("prefix_plus_one_pairs", true, |tid, n, l| {
+        let bases: Vec<String> = [1usize, 7, 8, 9, 64, 1000, 4096, 70_000, 1_100_000].iter().map(|k| "correct horse battery staple ".chars().cycle().take(*k).collect()).collect();
+        for (i, base) in bases.iter().enumerate() {
+            if i % n != tid {
+                continue;
+            }
+            for extra in ["!", "a", "\u{e9}", " "] {
+                let longer = format!("{base}{extra}");
+                for p in PROFS {
+                    for (x, y) in [(&longer, base), (base, &longer)] {
+                        l.cases += 1;
+                        if let Err(v) = check_pair(run, p, x, y, l) {
+                            run.violate(Violation::new(json!({"op": "compare_prefix_plus_one", "profile": p.name(), "base_chars": base.chars().count(), "extra": extra, "longer_first": x.len() > y.len()}), v.expected, v.observed));
+                            return;
+                        }
+                    }
+                }
+            }
+        }
     });
     // distinct equal-length strings that collide under common 32-bit hashes must still compare as different
     run.par("fingerprint_collisions", true, |tid, _n, l| {
@@ -338,6 +394,11 @@ pub fn replay(run: &Run, case: &Value) -> Check {
     let p = Prof::from_name(case["profile"].as_str().unwrap()).expect("profile");
     let mut l = Local::default();
     match case["op"].as_str() {
+        Some("compare_prefix_plus_one") => {
+            let base: String = "correct horse battery staple ".chars().cycle().take(case["base_chars"].as_u64().unwrap() as usize).collect();
+            let longer = format!("{base}{}", case["extra"].as_str().unwrap());
+            if case["longer_first"].as_bool().unwrap() { check_pair(run, p, &longer, &base, &mut l) } else { check_pair(run, p, &base, &longer, &mut l) }
+        }
         Some("laws") => check_laws(run, p, &jget_str(case, "a").unwrap(), &jget_str(case, "b").unwrap(), &jget_str(case, "c").unwrap(), &mut l),
         _ => check_pair(run, p, &jget_str(case, "a").unwrap(), &jget_str(case, "b").unwrap(), &mut l),
     }
